@@ -1,0 +1,38 @@
+//go:build verif
+
+package collection
+
+import (
+	"github.com/tidwall/geojson/geometry"
+	"github.com/tidwall/tile38/internal/object"
+)
+
+// VerifRtreeValueDown exposes rtreeValueDown to the verification harness.
+func VerifRtreeValueDown(d float64) float32 { return rtreeValueDown(d) }
+
+// VerifRtreeValueUp exposes rtreeValueUp to the verification harness.
+func VerifRtreeValueUp(d float64) float32 { return rtreeValueUp(d) }
+
+// VerifSpatialScan walks every entry of the spatial index (float32 rectangle
+// and object), in the R-tree's own order.
+func (c *Collection) VerifSpatialScan(
+	iter func(min, max [2]float32, o *object.Object) bool,
+) {
+	c.spatial.Scan(iter)
+}
+
+// VerifIndexLens returns the number of entries in the four indexes.
+func (c *Collection) VerifIndexLens() (objs, values, spatial, expires int) {
+	return c.objs.Len(), c.values.Len(), c.spatial.Len(), c.expires.Len()
+}
+
+// VerifGeoSearch runs the unexported geoSearch (index candidates of a
+// float64 rectangle, before the exact predicate).
+func (c *Collection) VerifGeoSearch(minX, minY, maxX, maxY float64,
+	iter func(o *object.Object) bool,
+) {
+	c.geoSearch(geometry.Rect{
+		Min: geometry.Point{X: minX, Y: minY},
+		Max: geometry.Point{X: maxX, Y: maxY},
+	}, iter)
+}
